@@ -459,12 +459,22 @@ func checkC10(w *World) {
 				ok, why = true, "the constant 0 (root)"
 			}
 		case *ssa.UnOp:
-			if fa, isFA := x.X.(*ssa.FieldAddr); isFA && sf.roleOf(fa.Field) == "pos" {
-				ok, why = true, "the position of the cursor being replaced"
+			if fa, isFA := x.X.(*ssa.FieldAddr); isFA {
+				if pt, isP := fa.X.Type().(*types.Pointer); isP && types.Identical(pt.Elem(), sf.T) {
+					if sf.roleOf(fa.Field) == "pos" {
+						ok, why = true, "the position of the cursor being replaced"
+					}
+				} else if builderCounterAdvanced(x) {
+					ok, why = true, "the builder's counter field, read right after it was advanced by at least one"
+				} else {
+					why = "a field of another object, read without advancing it first"
+				}
 			}
 		case *ssa.Call:
 			if _, isPos := isMethodCall(x, "Pos"); isPos {
 				ok, why = true, "the position of the cursor being replaced (read through Pos())"
+			} else if g := staticCallee(x); g != nil && fnPkgKey(g) == "store" && advancesAndReturnsCounter(g) {
+				ok, why = true, "the result of " + g.Name() + ", which advances the builder's counter field by at least one and returns the new value"
 			}
 		case *ssa.Parameter:
 			why = "the caller's counter value, un-incremented: it is also the position of the node created just before (the element itself)"
@@ -656,7 +666,7 @@ func checkC10(w *World) {
 				n5++
 				ci := sf.Ctors[staticCallee(c)]
 				parent := c.Call.Args[ci.ParentParam]
-				okParent := parent == fa.X
+				okParent := parent == fa.X || sameObj(parent, fa.X)
 				// kind guard
 				kindOK, kindWhy := true, ""
 				g := map[string]bool{}
@@ -731,7 +741,7 @@ func checkC10(w *World) {
 				return
 			}
 			n5++
-			okParent := c.Call.Args[ci.ParentParam] == fa.X
+			okParent := c.Call.Args[ci.ParentParam] == fa.X || sameObj(c.Call.Args[ci.ParentParam], fa.X)
 			// position: that of the cursor in the same slot
 			okPos := false
 			posArg := c.Call.Args[ci.PosParam]
@@ -980,16 +990,88 @@ func checkC10(w *World) {
 				for _, in2 := range b.Instrs {
 					if u, ok := in2.(*ssa.UnOp); ok {
 						if fa, ok := u.X.(*ssa.FieldAddr); ok && sf.roleOf(fa.Field) == "parent" {
-							// used as next cursor: flows into a phi of the cursor or a recursive call
+							// used as next cursor: flows into a phi of the cursor or a recursive call, or is stored
+							// into the cursor field of the builder object it was read from
 							for _, rr := range referrers(u) {
-								switch rr.(type) {
+								switch y := rr.(type) {
 								case *ssa.Phi, *ssa.Call:
 									moves = true
+								case *ssa.Store:
+									if bf, ok := y.Addr.(*ssa.FieldAddr); ok && y.Val == ssa.Value(u) {
+										if cl, ok := fa.X.(*ssa.UnOp); ok && cl.Op == token.MUL {
+											if cfa, ok := cl.X.(*ssa.FieldAddr); ok && cfa.X == bf.X && cfa.Field == bf.Field {
+												moves = true
+											}
+										}
+									}
 								}
 							}
 						}
 					}
 				}
+			}
+			if !moves {
+				// ... or in a helper of the package that is handed the end flag (a method of a builder object): under
+				// that parameter it stores the parent of its cursor field into that field
+				allInstrs(fn, func(in3 ssa.Instruction) {
+					c3, ok := in3.(*ssa.Call)
+					if !ok {
+						return
+					}
+					g := staticCallee(c3)
+					if g == nil || fnPkgKey(g) != "store" || len(g.Blocks) == 0 {
+						return
+					}
+					var endParam ssa.Value
+					for k, a := range c3.Call.Args {
+						if a == isEnd && k < len(g.Params) {
+							endParam = g.Params[k]
+						}
+					}
+					underEnd := false
+					for _, a := range guardAtoms(c3.Block()) {
+						if a.V == isEnd && a.Pol {
+							underEnd = true
+						}
+					}
+					if endParam == nil && !underEnd {
+						return
+					}
+					allInstrs(g, func(in4 ssa.Instruction) {
+						st, ok := in4.(*ssa.Store)
+						if !ok {
+							return
+						}
+						bf, ok := st.Addr.(*ssa.FieldAddr)
+						if !ok {
+							return
+						}
+						u, ok := st.Val.(*ssa.UnOp)
+						if !ok || u.Op != token.MUL {
+							return
+						}
+						pfa, ok := u.X.(*ssa.FieldAddr)
+						if !ok || sf.roleOf(pfa.Field) != "parent" {
+							return
+						}
+						cl, ok := pfa.X.(*ssa.UnOp)
+						if !ok || cl.Op != token.MUL {
+							return
+						}
+						cfa, ok := cl.X.(*ssa.FieldAddr)
+						if !ok || cfa.X != bf.X || cfa.Field != bf.Field {
+							return
+						}
+						if underEnd {
+							moves = true
+						}
+						for _, a := range guardAtoms(st.Block()) {
+							if endParam != nil && a.V == endParam && a.Pol {
+								moves = true
+							}
+						}
+					})
+				})
 			}
 			w.check(P, "R10.7", "end event moves to the parent in "+fn.Name(), pull.Pos(), moves, fmt.Sprintf("on an end event the next cursor is cursor.parent: %v", moves))
 		})
@@ -1031,7 +1113,14 @@ func checkC10(w *World) {
 				return true
 			}
 			if fnPkgKey(sc) == "store" && sc != fn {
-				return mustConstruct(sc, sf, map[*ssa.Function]bool{}, 0)
+				// a helper that is handed the end flag deals with end events itself
+				var exempt ssa.Value
+				for k, a := range c.Call.Args {
+					if a == isEnd && k < len(sc.Params) {
+						exempt = sc.Params[k]
+					}
+				}
+				return mustConstructEx(sc, sf, map[*ssa.Function]bool{}, 0, exempt)
 			}
 			return false
 		}
@@ -1193,6 +1282,12 @@ func emptyNamespaceTest(v ssa.Value) (isTest bool, eqOnTrue bool) {
 // mustConstruct: every path through fn from its entry to a return calls a cursor constructor (or a helper that
 // must), except the paths on which a namespace value was tested to be empty.
 func mustConstruct(fn *ssa.Function, sf *storeFacts, inProgress map[*ssa.Function]bool, depth int) bool {
+	return mustConstructEx(fn, sf, inProgress, depth, nil)
+}
+
+// mustConstructEx: as mustConstruct, but the paths on which the boolean parameter exempt is true (the end flag of the
+// event, handed to a helper that deals with end events itself) need not construct.
+func mustConstructEx(fn *ssa.Function, sf *storeFacts, inProgress map[*ssa.Function]bool, depth int, exempt ssa.Value) bool {
 	if depth > 4 || inProgress[fn] || len(fn.Blocks) == 0 {
 		return false
 	}
@@ -1221,6 +1316,10 @@ func mustConstruct(fn *ssa.Function, sf *storeFacts, inProgress map[*ssa.Functio
 				ok = false
 				return
 			case *ssa.If:
+				if exempt != nil && x.Cond == exempt {
+					walk(b.Succs[1])
+					return
+				}
 				if isT, eqTrue := emptyNamespaceTest(x.Cond); isT {
 					if eqTrue {
 						walk(b.Succs[1])
@@ -1332,4 +1431,86 @@ func lenGrowthDifference(bo *ssa.BinOp) bool {
 	}
 	addends(bo.X, 0)
 	return found
+}
+
+// builderCounterAdvanced: ld reads an integer field of an object; earlier in the same block that field was stored with
+// its own previous value plus a constant >= 1, and nothing in between stores into it or is handed the object.
+func builderCounterAdvanced(ld *ssa.UnOp) bool {
+	fa, ok := ld.X.(*ssa.FieldAddr)
+	if !ok || ld.Op != token.MUL {
+		return false
+	}
+	b := ld.Block()
+	idx := instrIndex(ld)
+	for i := idx - 1; i >= 0; i-- {
+		switch x := b.Instrs[i].(type) {
+		case *ssa.Store:
+			f2, ok := x.Addr.(*ssa.FieldAddr)
+			if !ok || f2.Field != fa.Field || !(f2.X == fa.X || sameObj(f2.X, fa.X)) {
+				continue
+			}
+			return isFieldPlusConst(x.Val, fa)
+		case ssa.CallInstruction:
+			for _, a := range x.Common().Args {
+				if a == fa.X {
+					return false
+				}
+			}
+		}
+	}
+	return false
+}
+
+// isFieldPlusConst: v is (a read of the field fa addresses) + k with k >= 1.
+func isFieldPlusConst(v ssa.Value, fa *ssa.FieldAddr) bool {
+	bo, ok := v.(*ssa.BinOp)
+	if !ok || bo.Op != token.ADD {
+		return false
+	}
+	k, isK := constInt(bo.Y)
+	if !isK || k < 1 {
+		return false
+	}
+	ld, ok := bo.X.(*ssa.UnOp)
+	if !ok || ld.Op != token.MUL {
+		return false
+	}
+	f2, ok := ld.X.(*ssa.FieldAddr)
+	return ok && f2.Field == fa.Field && (f2.X == fa.X || sameObj(f2.X, fa.X))
+}
+
+// advancesAndReturnsCounter: g (a method of the builder) stores field+k (k >= 1) into an integer field of its receiver
+// on its only path and returns the new value of that field.
+func advancesAndReturnsCounter(g *ssa.Function) bool {
+	if len(g.Params) == 0 || len(g.Blocks) != 1 || g.Signature.Results().Len() != 1 {
+		return false
+	}
+	var st *ssa.Store
+	n := 0
+	for _, in := range g.Blocks[0].Instrs {
+		if s, ok := in.(*ssa.Store); ok {
+			st = s
+			n++
+		}
+	}
+	if n != 1 {
+		return false
+	}
+	fa, ok := st.Addr.(*ssa.FieldAddr)
+	if !ok || fa.X != ssa.Value(g.Params[0]) || !isFieldPlusConst(st.Val, fa) {
+		return false
+	}
+	ret, ok := g.Blocks[0].Instrs[len(g.Blocks[0].Instrs)-1].(*ssa.Return)
+	if !ok || len(ret.Results) != 1 {
+		return false
+	}
+	if ret.Results[0] == st.Val {
+		return true
+	}
+	if ld, ok := ret.Results[0].(*ssa.UnOp); ok && ld.Op == token.MUL {
+		if f2, ok := ld.X.(*ssa.FieldAddr); ok && f2.Field == fa.Field && f2.X == fa.X && instrIndex(ld) > instrIndex(st) {
+			return true
+		}
+	}
+	return false
 }
